@@ -8,6 +8,7 @@ package main
 // the shipped `@Test` vectors.
 
 import (
+	"flag"
 	"math/big"
 	"os"
 	"path/filepath"
@@ -82,7 +83,7 @@ var witnesses = []witness{
 
 func modeWitness(args []string) {
 	var srcs string
-	cf, o := hxlib.ParseCommon("witness", args, func(fs *flagSet) {
+	cf, o := hxlib.ParseCommon("witness", args, func(fs *flag.FlagSet) {
 		fs.StringVar(&srcs, "srcs", "", "sidecar file")
 	})
 	defer o.Close()
